@@ -811,6 +811,8 @@ def _ohv_running_max(prog, rep):
 
 
 def run(prog, rep, tier):
+    rep.explanation = ('Counting obligations on the apportionment loop (start + trips == requested as polynomials, trips >= 0 from the guard), closed-interval / shared-slice / monotone-counter rules on the binning loops, run-length-encoding shape of the bounds scan, slice coupling and definite initialisation of the four block-value builders, value-numbered OHV / OPV reductions and factory wiring.')
+    rep.not_decided = ['which equal-width bin a marker falls in (floating-point linspace) and tie handling at block boundaries', 'conservation of value and the doubled-haploid bound as numerical facts (they follow from the covering run-length encoding, the shared slice and max over a superset)']
     check_apportion(prog, rep)
     check_bins(prog, rep)
     check_bounds(prog, rep)
